@@ -211,7 +211,7 @@ theorem latestP_drop (c : Cfg) (a : Row) (pre : List Row) (lb : Row) (rest : Lis
   unfold latestP
   rw [takeWhile_append_of_pos (by simpa using hpre)]
   have : (lb :: rest).takeWhile (fun b => decide (c.ts b < c.ts a))
-      = lb :: rest.takeWhile (fun b => decide (c.ts b < c.ts a)) := by simp [takeWhile_cons, hlb]
+      = lb :: rest.takeWhile (fun b => decide (c.ts b < c.ts a)) := by simp [hlb]
   rw [this, getLast?_append]
   simp [getLast?_cons]
 
@@ -258,7 +258,7 @@ theorem pbLoop_eq_spec (c : Cfg) : ∀ (fuel : Nat) (as : List Row) (b : Row) (b
             | nil => simp
             | cons y ys =>
               have := h4 y (by simp)
-              simp [takeWhile_cons, Nat.not_lt.mpr this]
+              simp [Nat.not_lt.mpr this]
           rw [this, getLast?_append]
           simp
         simp [pbStep, this]
@@ -289,14 +289,14 @@ theorem pbLoop_dropWhile (c : Cfg) (a : Row) (as : List Row) : ∀ (bs : List Ro
     | succ fuel =>
       by_cases hb : c.ts b < c.ts a
       · refine ⟨fuel + 1, ?_, ?_⟩
-        · simp [dropWhile_cons, Nat.not_le.mpr hb]; simp at hf; omega
-        · simp [dropWhile_cons, Nat.not_le.mpr hb]
+        · simp [Nat.not_le.mpr hb]; simp at hf; omega
+        · simp [Nat.not_le.mpr hb]
       · obtain ⟨fuel', h1, h2⟩ := ih fuel (by simp at hf ⊢; omega)
         refine ⟨fuel', ?_, ?_⟩
-        · simpa [dropWhile_cons, Nat.not_lt.mp hb] using h1
+        · simpa [Nat.not_lt.mp hb] using h1
         · simp only [pbLoop, hb, if_false]
           rw [h2]
-          simp [dropWhile_cons, Nat.not_lt.mp hb]
+          simp [Nat.not_lt.mp hb]
 
 /-- closed form of `match_preceded_by` on a time-sorted a-list (any b-list) -/
 theorem precededBy_eq_spec (c : Cfg) (a : Row) (as bs : List Row)
